@@ -367,12 +367,36 @@ def thread_run(jp, rec, R, run_id):
     sys.setswitchinterval(1e-6)
     inj.start()
     try:
-        threads = [threading.Thread(target=worker, args=(t,)) for t in range(T)]
+        threads = [threading.Thread(target=worker, args=(t,), daemon=True, name="w%d" % t) for t in range(T)]
         for th in threads:
             th.start()
+        deadline = time.time() + 90
         for th in threads:
-            th.join(120)
+            th.join(max(0.1, deadline - time.time()))
         stuck = any(th.is_alive() for th in threads)
+        blocked = None
+        if stuck:
+            # logical criterion for a deadlock (not a wall-clock verdict): two stack samples some seconds apart are
+            # identical and every live worker thread is parked inside package code (waiting for a lock it can never get)
+            def stacks():
+                out = {}
+                frames = sys._current_frames()
+                for th in threads:
+                    if th.is_alive() and th.ident in frames:
+                        f = frames[th.ident]
+                        chain = []
+                        while f is not None:
+                            chain.append((f.f_code.co_filename, f.f_lineno, f.f_code.co_name))
+                            f = f.f_back
+                        out[th.name] = chain
+                return out
+            s1 = stacks()
+            time.sleep(5)
+            s2 = stacks()
+            if s1 and s1 == s2:
+                inside = {name: next(((os.path.basename(fn), ln, fnname) for fn, ln, fnname in chain if fn.startswith(pkg)), None) for name, chain in s2.items()}
+                if all(v is not None for v in inside.values()):
+                    blocked = inside
     finally:
         inj.stop()
         sys.setswitchinterval(old)
@@ -385,6 +409,10 @@ def thread_run(jp, rec, R, run_id):
     for s in inj.switch_sites:
         rec.extra["switch_sites"][s] = rec.extra["switch_sites"].get(s, 0) + 1
     rec.case(("thread-run", run_id), inj.switches > 0)
+    if stuck and blocked:
+        rec.violation("threads-deadlocked-inside-package-code", {"threads": T, "blocked_at": jsonable(blocked),
+                                                                 "concurrent_queries": sorted({x[0] for m in jobs for x in m})[:12]})
+        return
     if stuck:
         rec.timeout("thread run %s did not finish" % run_id)
         return
@@ -421,6 +449,8 @@ def run_shard(spec, rec):
             rec.wal({"thread-run": i})
             thread_run(jp, rec, R, "%s/%d" % (spec["seed"], i))
             rec.heartbeat(True)
+            if rec.viol_counts.get("threads-deadlocked-inside-package-code"):
+                break   # blocked daemon threads are left behind; further runs in this process would only pile up
 
 
 def finish(m, tier):
